@@ -1,0 +1,11 @@
+//go:build verif && vfs
+
+package litestream
+
+import "context"
+
+// VerifPoll runs one poll of the replica client so the external verification
+// harness owns the poll points instead of racing the background ticker.
+func (f *VFSFile) VerifPoll(ctx context.Context) error {
+	return f.pollReplicaClient(ctx)
+}
